@@ -79,9 +79,13 @@ IMPL('impl<B> Inner<B>', raw='''
         &&& (if self.call.analyzed() { phase_ok(&self.call.req(), self.bstate().phase) } else { self.bstate().phase is SendLine })
         &&& self.bstate().reader is None
     }
+    /// C02's quantifier: the request can name its host (absolute URI, or explicit Host header)
+    pub open spec fn names_host(&self) -> bool {
+        self.call.req().eff_uri().spec_host() is Some || crate::http::first_value(self.call.req().eff(), lit("host")) is Some
+    }
     /// SendBody / Await100: head completely written, body writer ready
     pub open spec fn wf_body_pending(&self) -> bool {
-        &&& self.wf_common() && self.status is None && self.call is WithBody && self.call.analyzed()
+        &&& self.wf_common() && self.status is None && self.call is WithBody && self.call.analyzed() && self.names_host()
         &&& self.bstate().phase is SendBody && !(self.bstate().writer.mode is None) && self.bstate().reader is None
         &&& phase_ok(&self.call.req(), self.bstate().phase)
     }
@@ -179,10 +183,7 @@ pub proof fn axiom_flow_literals()
 
 # ------------------------------------------------------------------------------------------------ SEND REQUEST
 IMPL('impl<B> Flow<B, SendRequest>', raw='''
-    /// C02: the request can name its host
-    pub open spec fn has_host_source(&self) -> bool {
-        self.inner.call.req().eff_uri().spec_host() is Some || crate::http::first_value(self.inner.call.req().eff(), lit("host")) is Some
-    }
+    pub open spec fn has_host_source(&self) -> bool { self.inner.names_host() }
 ''')
 FN('write', props=['C02', 'C17', 'C01', 'C16', 'C09'], ret='r',
    requires=[('C09.wf', 'old(self).inner.wf_sending()'), ('C02.quantifier_request_names_its_host', 'old(self).has_host_source()')],
@@ -207,7 +208,7 @@ FN('can_proceed', props=['C09', 'C02'], ret='r',
    requires=[('C09.wf', 'self.inner.wf_sending()')],
    ensures=[('C09.can_proceed_iff_head_complete', 'r == (self.inner.bstate().phase is SendBody)')])
 FN('proceed', props=['C09', 'C11'], ret='r', mutself=True,
-   requires=[('C09.wf', 'self.inner.wf_sending()')],
+   requires=[('C09.wf', 'self.inner.wf_sending()'), ('C02.quantifier_request_names_its_host', 'self.inner.names_host()')],
    ensures=[
        ('C09.proceed_iff_can_proceed', '(r is Ok && r->Ok_0 is None) <==> !(self.inner.bstate().phase is SendBody)'),
        ('C09.edge_after_head', '''self.inner.bstate().phase is SendBody ==> match r {
@@ -220,4 +221,180 @@ FN('proceed', props=['C09', 'C11'], ret='r', mutself=True,
         }'''),
    ],
    )
+END()
+
+# ------------------------------------------------------------------------------------------------ AWAIT 100
+RAW('''
+use crate::httparse::{Outcome, parse_response};
+use crate::parser::spec_try_parse_response;
+''')
+IMPL('impl<B> Flow<B, Await100>')
+FN('try_read_100', props=['C11', 'C10', 'C12', 'C09', 'C01'], ret='r',
+   requires=[('C09.wf', 'old(self).inner.wf_await100()'),
+             ('C09.documented_still_awaiting', 'old(self).inner.await_100_continue && old(self).inner.should_send_body')],
+   ensures=[
+       ('C09.wf_preserved', 'final(self).inner.wf_await100() && final(self).inner.call == old(self).inner.call && final(self).inner.status == old(self).inner.status && final(self).inner.location == old(self).inner.location'),
+       ('C12.counts', 'r is Ok ==> r->Ok_0 <= input.len()'),
+       ('C11.handshake_exact', '''match parse_response(input@, 0) {
+            // input ends inside the status line or right after it: decide nothing, consume nothing
+            Outcome::Partial(_) => r == Ok::<usize, Error>(0usize) && final(self).inner == old(self).inner,
+            Outcome::Complete(n, p) =>
+                if !(p.version is Some && p.version->Some_0 <= 1 && p.code is Some && 100 <= p.code->Some_0 <= 999) { r is Err && !final(self).inner.await_100_continue && final(self).inner.reasons() == old(self).inner.reasons() && final(self).inner.should_send_body }
+                else if p.code->Some_0 == 100 {
+                    // a complete bare 100: consumed exactly, the body is sent
+                    r == Ok::<usize, Error>(n as usize) && !final(self).inner.await_100_continue && final(self).inner.should_send_body && final(self).inner.reasons() == old(self).inner.reasons()
+                } else {
+                    // any other response without fields: consume nothing, never send the body, connection must close
+                    r == Ok::<usize, Error>(0usize) && !final(self).inner.await_100_continue && !final(self).inner.should_send_body && final(self).inner.reasons() == old(self).inner.reasons().push(CloseReason::Not100Continue)
+                },
+            Outcome::Err(e) =>
+                if e == crate::httparse::Error::TooManyHeaders {
+                    // a response with fields: it is not a 100
+                    r == Ok::<usize, Error>(0usize) && !final(self).inner.await_100_continue && !final(self).inner.should_send_body && final(self).inner.reasons() == old(self).inner.reasons().push(CloseReason::Not100Continue)
+                } else { r is Err && !final(self).inner.await_100_continue && final(self).inner.should_send_body && final(self).inner.reasons() == old(self).inner.reasons() },
+        }'''),
+   ],
+   head='broadcast use crate::httparse::axiom_outcome_ok;',
+   )
+FN('can_keep_await_100', props=['C11'], ret='r', ensures=[('aux.can_keep_await_100', 'r == self.inner.await_100_continue')])
+FN('proceed', props=['C09', 'C11'], ret='r', mutself=True,
+   requires=[('C09.wf', 'self.inner.wf_await100()')],
+   ensures=[('C11.body_sent_iff_not_refused', '''match r {
+            Ok(Await100Result::SendBody(f)) => self.inner.should_send_body && f.inner == self.inner && f.inner.wf_send_body(),
+            Ok(Await100Result::RecvResponse(f)) => !self.inner.should_send_body && f.inner.wf_recv_response() && self.inner.same_facts(&f.inner) && f.inner.call.req() == self.inner.call.req() && f.inner.bstate().reader is None,
+            Err(_) => false }''')],
+   )
+END()
+
+# ------------------------------------------------------------------------------------------------ SEND BODY
+IMPL('impl<B> Flow<B, SendBody>')
+FN('write', props=['C03', 'C04', 'C18', 'C19', 'C01', 'C09'], ret='r',
+   requires=[('C09.wf', 'old(self).inner.wf_send_body()')],
+   ensures=[
+       ('C09.wf_preserved', 'final(self).inner.wf_send_body() && old(self).inner.same_facts(&final(self).inner) && final(output).len() == old(output).len() && final(self).inner.call.req() == old(self).inner.call.req()'),
+       ('C03/C04.body_bytes', 'post_write_body(&old(self).inner.call->WithBody_0, &final(self).inner.call->WithBody_0, input@, old(output).len() as nat, |n: nat| final(output)@.subrange(0, n as int), r)'),
+   ])
+FN('consume_direct_write', props=['C04', 'C09'], ret='r',
+   requires=[('C09.wf', 'old(self).inner.wf_send_body()')],
+   ensures=[
+       ('C09.wf_preserved', 'final(self).inner.wf_send_body() && old(self).inner.same_facts(&final(self).inner)'),
+       ('C04.direct_write_accounting', '''match old(self).inner.bstate().writer.mode {
+            SenderMode::Sized(left) => if amount as u64 > left { r == Err::<(), Error>(Error::BodyLargerThanContentLength) && final(self).inner == old(self).inner }
+                else { r is Ok && final(self).inner.bstate().writer.mode == SenderMode::Sized((left - amount) as u64) && final(self).inner.bstate().writer.ended == (old(self).inner.bstate().writer.ended || left == amount as u64) },
+            _ => r == Err::<(), Error>(Error::BodyIsChunked) && final(self).inner == old(self).inner }'''),
+   ])
+FN('calculate_max_input', props=['C18', 'C01'], ret='r',
+   requires=[('C09.wf', 'old(self).inner.wf_send_body()')],
+   ensures=[
+       ('C01.query_is_read_only', 'final(self).inner == old(self).inner'),
+       ('C18.sized_identity_and_chunked_closed_form', 'r == (if old(self).inner.bstate().writer.mode is Chunked { crate::body::spec_max_input(output_len as nat) as usize } else { output_len })'),
+       ('C18.le_n', 'r <= output_len'),
+   ],
+   head='proof { crate::body::lemma_max_input_le_and_monotone(output_len as nat, output_len as nat); }')
+FN('is_chunked', props=['C03', 'C01'], ret='r',
+   requires=[('C09.wf', 'old(self).inner.wf_send_body()')],
+   ensures=[('C01.query_is_read_only', 'final(self).inner == old(self).inner && r == (old(self).inner.bstate().writer.mode is Chunked)')])
+FN('can_proceed', props=['C09', 'C03', 'C04'], ret='r',
+   requires=[('C09.wf', 'self.inner.wf_send_body()')],
+   ensures=[('C09.can_proceed_iff_body_finished', 'r == self.inner.bstate().writer.ended')])
+FN('proceed', props=['C09'], ret='r', mutself=True,
+   requires=[('C09.wf', 'self.inner.wf_send_body()')],
+   ensures=[('C09.proceed_iff_can_proceed', '''if self.inner.bstate().writer.ended {
+                r is Some && r->Some_0.inner.wf_recv_response() && self.inner.same_facts(&r->Some_0.inner) && r->Some_0.inner.call.req() == self.inner.call.req() && r->Some_0.inner.bstate().reader is None
+            } else { r is None }''')])
+END()
+
+# ------------------------------------------------------------------------------------------------ RECV RESPONSE
+RAW('''
+use crate::client::call::{post_response, text_first, response_framing};
+use crate::body::{Framing, reader_framing};
+''')
+IMPL('impl<B> Flow<B, RecvResponse>')
+FN('try_response', props=['C05', 'C10', 'C11', 'C14', 'C12', 'C09', 'C01', 'C06'], ret='r',
+   requires=[('C09.wf', 'old(self).inner.wf_recv_response()'),
+             ('C09.documented_no_response_yet', 'old(self).inner.bstate().reader is None')],
+   ensures=[
+       ('C09.wf_preserved', 'final(self).inner.wf_recv_response() && final(self).inner.should_send_body == old(self).inner.should_send_body && final(self).inner.call.req() == old(self).inner.call.req()'),
+       ('C12.counts', 'r is Ok ==> r->Ok_0.0 <= input.len()'),
+       ('C12.error_changes_nothing', 'r is Err ==> final(self).inner == old(self).inner'),
+       ('C05.need_more_data_consumes_nothing', 'r is Ok && r->Ok_0.1 is None && final(self).inner.await_100_continue == old(self).inner.await_100_continue ==> r->Ok_0.0 == 0 && final(self).inner == old(self).inner'),
+       ('C11.late_100_skipped_once', '''r is Ok && r->Ok_0.1 is None && final(self).inner.await_100_continue != old(self).inner.await_100_continue ==> old(self).inner.await_100_continue && !final(self).inner.await_100_continue
+            && final(self).inner.call == old(self).inner.call && final(self).inner.reasons() == old(self).inner.reasons() && final(self).inner.status == old(self).inner.status'''),
+       ('C11.unawaited_100_is_not_skipped', 'r is Ok && r->Ok_0.1 is Some && r->Ok_0.1->Some_0.spec_status().0 == 100 ==> !old(self).inner.await_100_continue'),
+       ('C14.last_location_wins', '''r is Ok && r->Ok_0.1 is Some ==> final(self).inner.status == Some(r->Ok_0.1->Some_0.spec_status())
+            && match last_value(r->Ok_0.1->Some_0.spec_headers().entries(), lit("location")) { Some(v) => final(self).inner.location is Some && final(self).inner.location->Some_0.view() == v, None => final(self).inner.location is None }'''),
+       ('C10.server_connection_close', '''r is Ok && r->Ok_0.1 is Some ==> final(self).inner.await_100_continue == old(self).inner.await_100_continue && final(self).inner.reasons() ==
+            (if has_field(r->Ok_0.1->Some_0.spec_headers().entries(), lit("connection"), lit("close")) { old(self).inner.reasons().push(CloseReason::ServerConnectionClose) } else { old(self).inner.reasons() })'''),
+       ('C06.reader_set_by_the_rules', 'r is Ok && r->Ok_0.1 is Some ==> post_response(&old(self).inner.call->RecvResponse_0, &final(self).inner.call->RecvResponse_0, &r->Ok_0.1->Some_0)'),
+   ],
+   head='proof { crate::client::call::axiom_literals2(); axiom_flow_literals(); }',
+   rewrites=[
+       ('N9', '''response
+            .headers()
+            .get_all("location")
+            .into_iter()
+            .last()
+            .cloned()''', 'response.headers().last_value_of("location")'),
+       ('N9', 'response.headers().iter().has("connection", "close")', 'headers_has(response.headers(), "connection", "close")'),
+   ])
+FN('can_proceed', props=['C09', 'C05'], ret='r',
+   requires=[('C09.wf', 'self.inner.wf_recv_response()')],
+   ensures=[('C09.can_proceed_iff_response_received', 'r == (self.inner.bstate().reader is Some)')])
+FN('proceed', props=['C09', 'C06', 'C08', 'C10', 'C15'], ret='r', mutself=True,
+   requires=[('C09.wf', 'self.inner.wf_recv_response()')],
+   ensures=[
+       ('C09.proceed_iff_can_proceed', 'r is Some <==> self.inner.bstate().reader is Some'),
+       ('C06.successor_state', '''self.inner.bstate().reader matches Some(rd) ==> ({
+            let need_body = !(rd is NoBody || (rd is LengthDelimited && rd->LengthDelimited_0 == 0));
+            match r {
+                Some(RecvResponseResult::RecvBody(f)) => need_body && f.inner.wf_received() && f.inner.bstate().reader == Some(rd) && f.inner.status == self.inner.status && f.inner.location == self.inner.location
+                    && f.inner.call.req() == self.inner.call.req()
+                    && f.inner.reasons() == (if rd is CloseDelimited { self.inner.reasons().push(CloseReason::CloseDelimitedBody) } else { self.inner.reasons() }),
+                Some(RecvResponseResult::Redirect(f)) => !need_body && is_redirect_status(self.inner.status) && f.inner.wf_redirect() && self.inner.same_facts(&f.inner) && f.inner.call.req() == self.inner.call.req(),
+                Some(RecvResponseResult::Cleanup(f)) => !need_body && !is_redirect_status(self.inner.status) && f.inner.wf_received() && self.inner.same_facts(&f.inner),
+                None => false,
+            } })'''),
+   ])
+END()
+
+# ------------------------------------------------------------------------------------------------ RECV BODY
+IMPL('impl<B> Flow<B, RecvBody>')
+FN('read', props=['C07', 'C08', 'C12', 'C01', 'C09'], ret='r',
+   requires=[('C09.wf', 'old(self).inner.wf_received()')],
+   ensures=[
+       ('C09.wf_preserved', 'final(self).inner.wf_received() && old(self).inner.same_facts(&final(self).inner) && final(output).len() == old(output).len() && final(self).inner.call.req() == old(self).inner.call.req()'),
+       ('C12.counts', 'r is Ok ==> r->Ok_0.0 <= input.len() && r->Ok_0.1 <= old(output).len()'),
+       ('C12.copy_in_order', 'r is Ok ==> crate::chunk::is_subseq(final(output)@.subrange(0, r->Ok_0.1 as int), input@.subrange(0, r->Ok_0.0 as int))'),
+       ('C08.length_delimited', '''old(self).inner.bstate().reader->Some_0 is LengthDelimited && old(self).inner.bstate().reader->Some_0->LengthDelimited_0 > 0 ==>
+            BodyReader::post_read_limit(old(self).inner.bstate().reader->Some_0, final(self).inner.bstate().reader->Some_0, input@, old(output)@, final(output)@, r)'''),
+       ('C08.close_delimited', '''old(self).inner.bstate().reader->Some_0 is CloseDelimited ==>
+            BodyReader::post_read_unlimit(old(self).inner.bstate().reader->Some_0, final(self).inner.bstate().reader->Some_0, input@, old(output)@, final(output)@, r)'''),
+       ('C07.chunked', '''old(self).inner.bstate().reader->Some_0 is Chunked ==>
+            BodyReader::post_read_chunked(old(self).inner.bstate().reader->Some_0, final(self).inner.bstate().reader->Some_0, input@, final(output)@, old(self).inner.bstate().stop_on_chunk_boundary, r)'''),
+       ('C08.ended_body_reads_nothing', '''({ let rd = old(self).inner.bstate().reader->Some_0;
+            (rd is NoBody || (rd is LengthDelimited && rd->LengthDelimited_0 == 0) || (rd is Chunked && rd->Chunked_0 is Ended)) ==> r == Ok::<(usize, usize), Error>((0usize, 0usize)) && final(self).inner.bstate().reader == old(self).inner.bstate().reader })'''),
+   ])
+FN('stop_on_chunk_boundary', props=['C07', 'C09'],
+   requires=[('C09.wf', 'old(self).inner.wf_received()')],
+   ensures=[('C09.wf_preserved', 'final(self).inner.wf_received() && old(self).inner.same_facts(&final(self).inner) && final(self).inner.bstate().stop_on_chunk_boundary == enabled && final(self).inner.bstate().reader == old(self).inner.bstate().reader')])
+FN('is_on_chunk_boundary', props=['C07', 'C01'], ret='r',
+   requires=[('C09.wf', 'self.inner.wf_received()')],
+   ensures=[('aux.Flow.is_on_chunk_boundary', 'r == (self.inner.bstate().reader->Some_0 is Chunked && self.inner.bstate().reader->Some_0->Chunked_0 is Size)')])
+FN('body_mode', props=['C06', 'C08'], ret='r',
+   requires=[('C09.wf', 'self.inner.wf_received()')],
+   ensures=[('C06.body_mode', '''match self.inner.bstate().reader->Some_0 { BodyReader::NoBody => r == BodyMode::NoBody, BodyReader::LengthDelimited(v) => r == BodyMode::LengthDelimited(v),
+            BodyReader::Chunked(_) => r == BodyMode::Chunked, BodyReader::CloseDelimited => r == BodyMode::CloseDelimited }''')])
+FN('can_proceed', props=['C09', 'C07', 'C08'], ret='r',
+   requires=[('C09.wf', 'self.inner.wf_received()')],
+   ensures=[('C08.can_proceed_iff_complete_or_close_delimited', '''r == match self.inner.bstate().reader->Some_0 { BodyReader::NoBody => true, BodyReader::LengthDelimited(v) => v == 0,
+            BodyReader::Chunked(d) => d is Ended, BodyReader::CloseDelimited => true }''')])
+FN('proceed', props=['C09', 'C15'], ret='r',
+   requires=[('C09.wf', 'self.inner.wf_received()')],
+   ensures=[('C09.proceed_iff_can_proceed', '''({
+            let ready = match self.inner.bstate().reader->Some_0 { BodyReader::NoBody => true, BodyReader::LengthDelimited(v) => v == 0, BodyReader::Chunked(d) => d is Ended, BodyReader::CloseDelimited => true };
+            match r {
+                None => !ready,
+                Some(RecvBodyResult::Redirect(f)) => ready && is_redirect_status(self.inner.status) && f.inner == self.inner && f.inner.wf_redirect(),
+                Some(RecvBodyResult::Cleanup(f)) => ready && !is_redirect_status(self.inner.status) && f.inner == self.inner && f.inner.wf_received(),
+            } })''')])
 END()
